@@ -273,7 +273,7 @@ func (e *Engine) checkTupleToSubjectSet(
 				x.WithToken(prevPage))
 			if err != nil {
 				g.Add(checkgroup.ErrorFunc(err))
-				return
+				break
 			}
 
 			for _, t := range tuples {
